@@ -240,7 +240,8 @@ fn main() {
             let engine = make_engine(prop).expect("engine");
             let plan = engine.plan(prop, &tier);
             println!("{} cases; budget {}s; isolate={}", plan.cases.len(), plan.budget_s, plan.isolate);
-            for c in plan.cases.iter().take(3) {
+            let all = std::env::var("MC_PLAN_ALL").is_ok();
+            for c in plan.cases.iter().take(if all { usize::MAX } else { 3 }) {
                 println!("{}", c);
             }
             if let Some(c) = plan.cases.last() {
